@@ -228,6 +228,13 @@ pub fn gen(tier: &str, rng: &mut Rng, emit: &mut Emit) {
         let ops = (0..n).map(|_| rand_op(rng, k)).collect();
         emit.case(13, history(rng, c, ops));
     }
+    // the table Length carries into its fourth byte at 16 MiB (419 430 memory affinity structures of 40 bytes): sum and
+    // length properties only, thorough tier only (about 1.5 GB in the model's process)
+    if tier == "thorough" && (emit.prop() == 1 || emit.prop() == 2) {
+        let c = l(rand_hdr(rng));
+        let ops = (0..419_432).map(|_| rand_op(rng, 1)).collect();
+        emit.case(13, history_at(c, ops, &[419_429, 419_430, 419_431]));
+    }
     let n = if tier == "thorough" { 3000 } else { 200 };
     for _ in 0..n {
         let c = l(rand_hdr(rng));
